@@ -91,6 +91,18 @@ def judge_seq(ctx, outs, what, atomic=True, exact=True, filt=None):
                               "(config %s, alphabet %s, mode %s)" % (
                                   scripts[i]["id"], rj["rel"], json.dumps(rj["event"]), json.dumps(scripts[i]["cfg"]),
                                   scripts[i]["alphabet"], scripts[i]["mode"]), match={"kind": "trace"})
+        # implementation level: the merged hook + API stream of the steered scripts replayed on Store.tla
+        if summ.get("impl_offsets"):
+            isum = dict(offsets=summ["impl_offsets"])
+            cfg = tlc.fill("TraceStore.cfg.tmpl", KEYS=", ".join(map(str, range(1, summ["keys"] + 1))))
+            ip = os.path.join(out, "impl.ndjson")
+            iacc, irej = ctx.validate_batch(ip, isum, validator=lambda pth, to: tlc.validate_trace("TraceStore", cfg, pth, timeout=to))
+            stats["impl_accepted"] = stats.get("impl_accepted", 0) + iacc
+            stats["impl_events"] = stats.get("impl_events", 0) + summ.get("impl_events", 0)
+            for rj in irej:
+                sid = scripts[summ["impl_scripts"][rj["index"]]]["id"]
+                ctx.drift.append("Store.tla does not explain the hook stream of script %s at event %d: %s "
+                                 "(implementation-level only; the contract judges separately)" % (sid, rj["rel"], json.dumps(rj["event"])))
         if summ["traces"] and len(ctx.samples) < 3:
             s0 = scripts[0]
             ctx.sample(dict(script=s0["id"], cfg=s0["cfg"], alphabet=s0["alphabet"], mode=s0["mode"],
@@ -170,6 +182,8 @@ def std_cov(ctx, stats, rule, extra=None):
     ctx.cov.update(dict(evaluations=stats["traces"], distinct_nontrivial=stats["nontrivial"], rule=rule,
                         events=stats["events"]))
     ctx.cov.update({k: v for k, v in stats.items() if k not in ("traces", "nontrivial", "events", "accepted")})
+    if "impl_accepted" in stats:
+        ctx.cov["implementation_level_traces_accepted_by_Store_tla"] = stats["impl_accepted"]
     if extra:
         ctx.cov.update(extra)
 
